@@ -344,6 +344,37 @@ func c04Run(e *Emitter, c codec, lims [4]int, b []byte) {
 			if err != nil {
 				return "(reencode-err " + strings.TrimPrefix(sxErr(err), "(err ")
 			}
+			if c.name != "wkbnan" && len(b)%3 == 0 {
+				// through the database/sql wrappers: Value of this geometry, then Value of another one (a
+				// statement with two geometry arguments), then the first value is what gets decoded
+				var holder, same sqlVal
+				var get func(sqlVal) geom.T
+				if c.name == "wkb" {
+					holder, same, _, get = wkbWrappers(g)
+				} else {
+					holder, same, _, get = ewkbWrappers(g)
+				}
+				if holder != nil {
+					v, err := holder.Value()
+					if err != nil {
+						return "(reencode-err " + strings.TrimPrefix(sxErr(err), "(err ")
+					}
+					bs, ok := v.([]byte)
+					if !ok {
+						return "(reencode-err other)"
+					}
+					decoy := geom.NewLineStringFlat(geom.XYZM, []float64{9, 8, 7, 6, 5, 4, 3, 2}).SetSRID(3857)
+					if c.name == "wkb" {
+						(&wkb.LineString{LineString: decoy}).Value()
+					} else {
+						(&ewkb.LineString{LineString: decoy}).Value()
+					}
+					if err := same.Scan(bs); err != nil {
+						return sxErr(err)
+					}
+					return "(ok " + raw(get(same)) + ")"
+				}
+			}
 			var g2 geom.T
 			switch c.name {
 			case "wkb":
